@@ -231,9 +231,9 @@ func checkC12(p *core.Program, r *core.Report) {
 	r.Count("frontend.Compile sites reached from the CLI", nCompile)
 	r.Count("circuit literals reached from the CLI", nLiterals)
 	r.Count("stored-dimension literals", nStored)
-	r.Floor("frontend.Compile sites reached from the CLI", 6)
-	r.Floor("circuit literals reached from the CLI", 8)
-	r.Floor("stored-dimension literals", 4)
+	r.Floor("frontend.Compile sites reached from the CLI", 2)
+	r.Floor("circuit literals reached from the CLI", 2)
+	r.Floor("stored-dimension literals", 2)
 	// O12.4
 	checkNoNondeterminism(p, r, ctx)
 }
@@ -329,7 +329,7 @@ func checkNoNondeterminism(p *core.Program, r *core.Report, ctx *circuitCtx) {
 	}
 	sort.Slice(fns, func(i, j int) bool { return fns[i].String() < fns[j].String() })
 	r.Count("definition/construction functions", len(fns))
-	r.Floor("definition/construction functions", 30)
+	r.Floor("definition/construction functions", 15)
 	nBad := 0
 	denyPkg := map[string]string{"math/rand": "pseudo-random source", "crypto/rand": "random source", "time": "clock", "runtime": "scheduler/runtime state"}
 	for _, fn := range fns {
